@@ -25,7 +25,79 @@ def run(ctx):
         runs.monitor_batch(ctx, PID, ctx.size(250, 3000), force=FORCE),
         _shared_mechanism(ctx),
         fault_injection(ctx, ctx.size(40, 500)),
+        custom_classes_two_trees(ctx, ctx.size(12, 120)),
     ]
+
+
+def _two_trees_worker(seed):
+    """two trees of one process register the SAME custom level-config class with DIFFERENT deme classes
+    (config_class_to_deme_class is per tree): in each tree every deme of that level is of that tree's class"""
+    import numpy as np
+    import pyhms.tree as T
+    from pyhms.config import EALevelConfig, TreeConfig
+    from pyhms.core.problem import FunctionProblem
+    from pyhms.demes.ea_deme import EADeme
+    from pyhms.demes.single_pop_eas.sea import SEA
+    from pyhms.sprout import get_simple_sprout
+    from pyhms.stop_conditions import DontStop, MetaepochLimit
+
+    from ..common import RunTimeout, is_env_crash, run_limit
+
+    class SharedConfig(EALevelConfig):
+        pass
+
+    class DemeA(EADeme):
+        pass
+
+    class DemeB(EADeme):
+        pass
+
+    rng = np.random.default_rng([seed, 5])
+    found = []
+    try:
+        with run_limit():
+            bounds = np.array([(-5.0, 5.0)] * 2)
+            order = [DemeA, DemeB] if rng.random() < 0.5 else [DemeB, DemeA]
+            lvl_custom = int(rng.integers(0, 2))
+            for k, cls in enumerate(order + [order[0]]):
+                prob = FunctionProblem(lambda x: float(np.sum(np.asarray(x) ** 2)), maximize=False, bounds=bounds)
+                mk = lambda C: C(ea_class=SEA, generations=1, problem=prob, pop_size=6, lsc=DontStop(), mutation_std=0.5, sample_std_dev=0.5)  # noqa: E731
+                levels = [mk(SharedConfig if lvl_custom == 0 else EALevelConfig), mk(SharedConfig if lvl_custom == 1 else EALevelConfig)]
+                tree = T.DemeTree(TreeConfig(levels, MetaepochLimit(4), get_simple_sprout(0.3, level_limit=3), options={"random_seed": int(rng.integers(1, 10**6))}, config_class_to_deme_class={SharedConfig: cls}))
+                tree.run()
+                for lv, demes in enumerate(tree.levels):
+                    for d in demes:
+                        want = cls if lv == lvl_custom else EADeme
+                        if type(d) is not want and not found:
+                            found.append(f"tree {k + 1} of the process maps its custom config class to {cls.__name__}, but deme {d.id} at level {lv + 1} is a {type(d).__name__} (an earlier tree mapped the same config class to {order[0].__name__ if k else '-'})")
+    except RunTimeout as e:
+        return {"status": "env", "detail": str(e)}
+    except Exception as e:  # noqa: BLE001
+        return {"status": "env" if is_env_crash(e) else "crash", "detail": f"{type(e).__name__}: {e}"}
+    return {"status": "ok", "found": found}
+
+
+def custom_classes_two_trees(ctx, n):
+    from ..common import Slice, pmap
+
+    sl = Slice("two trees of one process map one custom config class to different deme classes")
+    n = ctx.boost(n) if hasattr(ctx, "boost") else n
+    base = int(ctx.rng(63).integers(1 << 30))
+    seeds = [base + i for i in range(n)]
+    for sd, r in zip(seeds, pmap(_two_trees_worker, seeds, chunksize=2)):
+        if r["status"] == "env":
+            sl.skipped += 1
+            continue
+        if r["status"] == "crash":
+            sl.violations.append({"signature": "C07/run-crashed", "detail": r["detail"], "replay": {"seed": sd}})
+            continue
+        sl.cases += 1
+        sl.nontrivial.add(sd)
+        for m in r["found"]:
+            sl.violations.append({"signature": "C07/wrong-engine(two trees, one custom config class)", "detail": m, "replay": {"seed": sd}})
+    if seeds:
+        sl.sample({"seed": seeds[0]})
+    return sl
 
 
 class InjectedFault(Exception):
